@@ -71,7 +71,8 @@ func (s *step) node() map[string]interface{} {
 	bigMode := bound.Cmp(big.NewInt(1<<30)) >= 0 || neg
 	N := func(x *big.Int) interface{} { return numOf(new(big.Int).Abs(x), bigMode) }
 	// how far the reported price lies outside [min, max], as a class (discriminating observation for known-finding keys):
-	// "rounding" = by less than 10^-6 of the bound, "large" = more
+	// "rounding" = by less than 10^-4 of the bound or by less than 10^-15 absolute (1000 units of the last stored decimal
+	// place: prices near the lowest admissible 10^-15 have only a few significant digits), "large" = more
 	miss := "none"
 	if s.hasPrice {
 		var d, ref sdkmath.LegacyDec
@@ -82,7 +83,7 @@ func (s *step) node() map[string]interface{} {
 		}
 		if !d.IsNil() {
 			miss = "large"
-			if d.MulInt64(1000000).LT(ref) {
+			if d.MulInt64(10000).LT(ref) || d.LT(sdkmath.LegacyNewDecWithPrec(1, 15)) {
 				miss = "rounding"
 			}
 		}
@@ -508,11 +509,12 @@ func sharesMain(args []string) int {
 		if rx.Sign() == 0 && ry.Sign() == 0 {
 			rx = big.NewInt(1)
 		}
-		// arbitrary reserves are not a reachable state of a ranged pool with an unrelated price range: these cases
-		// exercise the share arithmetic only (kind "any": no price is derived); ranged pools with their prices are
-		// covered by the lifecycles below, which start from CreateRangedPool
-		kind := "any"
+		kind := "basic"
 		mn, mx := sf.mn, sf.mx
+		if rng.Intn(3) == 0 || rx.Sign() == 0 || ry.Sign() == 0 {
+			kind = "ranged"
+			mn, mx, _ = randRange(rng)
+		}
 		a := map[string]interface{}{"rx": rx.String(), "ry": ry.String(), "ps": ps.String(), "kind": kind}
 		if rng.Intn(2) == 0 {
 			x, y := randMag(rng, md), randMag(rng, md)
